@@ -77,6 +77,7 @@ def sites_for(variant):
         ]
         two = [
             ("fix_ge", "assert 5 >= snapshot(8)", "ge", "8", ["5"]),
+            ("fix_ge_unordered", "assert frozenset({1, 3}) >= snapshot(frozenset({2}))", "ge", "frozenset({2})", ["frozenset({1, 3})"]),
             ("create_ext", "assert outsource('new text') == snapshot()", None, None, None),
             ("xfail_fix", "assert 1 == snapshot(2)", "xfail", "2", ["1"]),
             ("update_list", "assert [1, 2] == snapshot([1, 1+1])", "eq", "[1, 1+1]", ["[1, 2]"]),
@@ -86,6 +87,7 @@ def sites_for(variant):
         ("create_eq", "assert 5 == snapshot()", "eq", None, ["5"]),
         ("fix_eq", "assert 5 == snapshot(4)", "eq", "4", ["5"]),
         ("trim_le", "assert 5 <= snapshot(9)", "le", "9", ["5"]),
+        ("fix_le_unordered", "assert {1, 3} <= snapshot({1, 2})", "le", "{1, 2}", ["{1, 3}"]),  # fails, yet the bound is neither too low nor too high: still a fix, never a trim
         ("update_eq", "assert 5 == snapshot(2+3)", "eq", "2+3", ["5"]),
         ("clean_eq", "assert double(3) == snapshot(6)", "eq", "6", ["6"]),
         ("mixed_in", "for x in (2, 1):\n        assert x in snapshot([2, 3])", "in", "[2, 3]", ["2", "1"]),
